@@ -250,3 +250,10 @@ Proof.
   rewrite Cmod_mult. apply Rmult_le_compat_l; [apply Cmod_ge_0|].
   apply simpson_rule_n_expi; [apply simpson_accepts_norm; exact Ha | apply simpson_norm_even | exact Hk].
 Qed.
+
+Lemma expi_shift : forall k x h, expi k (x + h) = Cmult (expi k h) (expi k x).
+Proof.
+  intros. unfold expi, Cmult. cbn [fst snd]. replace (k * (x + h)) with (k * h + k * x) by ring.
+  rewrite cos_plus, sin_plus. f_equal; ring.
+Qed.
+
